@@ -51,7 +51,8 @@ Definition new_rule (c : rule) : irule := mkIR c ∅ ∅.
 
 Inductive op :=
 | OProcess (a : alert)   (* the subscription loop received this alert update (Inhibitor.processAlert) *)
-| OGC                    (* the 15-minute tickers fired: store.Alerts.GC + gcCallback on every rule *)
+| OGC (sel : rule -> bool) (* GC tickers fired: store.Alerts.GC + gcCallback on the rules selected by sel (every rule
+                              has its own ticker; they are started together, so normally sel = fun _ => true) *)
 | OTick.                 (* nothing but the passing of time *)
 
 Section Inhibit.
@@ -74,7 +75,7 @@ Section Inhibit.
   Definition step (ih : list irule) (now : Z) (o : op) : list irule :=
     match o with
     | OProcess a => map (process_rule a) ih
-    | OGC => map (gc_rule now) ih
+    | OGC sel => map (fun r => if sel (ir_cfg r) then gc_rule now r else r) ih
     | OTick => ih
     end.
 
